@@ -301,6 +301,13 @@ def R1_effect_requires_authority(run):
         for (mpath, mb, recv, _args, ws_) in writes.recognise_mutators(facts, h):
             if mpath.startswith("state::") and "<impl" not in mpath:
                 effects.append((mpath, _acc_ref(recv), mb, ws_[-1]["line"]))
+        # ... also the one nested-field setter: position.reward_infos[i].amount_owed := v is Position::update_reward_owed
+        pvh_ = prov_of(h)
+        for w in writes.field_stores(facts):
+            if w["fn"] is h and w["kind"] == "assign" and w["last"] and w["field"] == "amount_owed" and w["adt"].endswith("PositionRewardInfo") and w["stmt"] < len(h.blocks[w["block"]]["s"]):
+                st_ = h.blocks[w["block"]]["s"][w["stmt"]]
+                if any(isinstance(e_, dict) and e_.get("f") == "reward_infos" for e_ in st_["p"]["p"]):
+                    effects.append((P + "::update_reward_owed", _acc_ref(pvh_.local(st_["p"]["l"], w["block"], w["stmt"])), w["block"], w["line"]))
         for f in st.fields:
             for cexpr in f.values("close"):
                 ty = {"Position": P, "PositionBundle": PB, "TokenBadge": B}.get(f.inner)
@@ -464,6 +471,13 @@ def R1b_no_unlisted_writers(run):
         rec = writes.recognise_mutators(facts, fn) if fn is not None else []
         covered = {(w_["block"], w_["stmt"]) for (_m, _b, _r, _a, ws_) in rec for w_ in ws_}
         mine = [w for w in writes.field_stores(facts) if w["fn"] is fn and w["adt"] in tracked and w["kind"] == "assign"]
+        # position.reward_infos[i].amount_owed := v is Position::update_reward_owed written in place (R1 holds it to the position authority)
+        owed = [w for w in mine if fn is not None and w["stmt"] < len(fn.blocks[w["block"]]["s"]) and
+                [e_.get("f") for e_ in fn.blocks[w["block"]]["s"][w["stmt"]]["p"]["p"] if isinstance(e_, dict) and "f" in e_] == ["reward_infos", "amount_owed"]]
+        if owed and all(w in owed or (w["block"], w["stmt"]) in covered for w in mine):
+            run.ok("R1b", "direct-store@" + path, detail="writes update_reward_owed in place (held to the position authority by R1)")
+            del offenders[path]
+            continue
         if rec and all((w["block"], w["stmt"]) in covered for w in mine) and all(m in MUTATORS or m in (W + "::update_rewards_and_liquidity",) for (m, _b, _r, _a, _w) in rec):
             run.ok("R1b", "direct-store@" + path, detail="writes %s in place (held to that setter's authority rule by R1)" % ", ".join(sorted({m.rsplit("::", 1)[-1] for (m, _b, _r, _a, _w) in rec})))
             del offenders[path]
@@ -610,6 +624,11 @@ def R2_authority_helpers(run):
     facts = run.facts
     for path, code_enum in (("util::shared::validate_owner", "MissingOrInvalidDelegate"),
                             ("pinocchio::ported::util_shared::pino_validate_owner", "MissingOrInvalidDelegate")):
+        if facts.fn(path) is None:
+            # the two-line helper was written into its callers: the same two tests are demanded there (below, `in place`)
+            run.ok("R2", "owner-key@" + path, detail="helper written in place; decided in its callers")
+            run.ok("R2", "is-signer@" + path, detail="helper written in place; decided in its callers")
+            continue
         fn = facts.need_fn(path)
         run.touch(fn)
         ats = A.atoms(fn)
@@ -656,7 +675,36 @@ def R2_authority_helpers(run):
         n_owner = n_deleg = 0
         all_mp = True
         deleg_blocks = []
-        for bi, t in calls:
+        if facts.fn(owner_fn) is None:
+            # in place: on the owner path `token.owner == authority.key && authority.is_signer`, on the delegate path the same with
+            # the delegate; each key test is followed, on its equal side, by a signer test whose false side fails, and no
+            # successful path gets around the signer tests
+            key_ats, sig_ats = [], []
+            for at in A.atoms(fn):
+                c = at.cond()
+                txt = show(at.term)
+                if "is_signer" in txt and mentions(at.term, lambda s: s[0] == "param" and s[1] == auth_param) and at.false_fail:
+                    sig_ats.append(at)
+                if c and c[0] in ("Eq", "Ne") and mentions(at.term, lambda s: s[0] == "param" and s[1] == auth_param) and "key" in txt:
+                    other = show(c[2]) if mentions(c[1], lambda s: s[0] == "param" and s[1] == auth_param) else show(c[1])
+                    ne_fails = at.true_fail if c[0] == "Ne" else at.false_fail
+                    if ne_fails:
+                        key_ats.append((at, "delegate" if "delegate" in other else ("owner" if "owner" in other else "?")))
+            n_owner = sum(1 for _, k in key_ats if k == "owner")
+            n_deleg = sum(1 for _, k in key_ats if k == "delegate")
+            deleg_blocks = [at.block for at, k in key_ats if k == "delegate"]
+            run.check("R2", "owner-path@" + path, n_owner == 1, "%s: expected exactly one `token_account.owner != authority key => fail` test, found %d" % (path, n_owner), loc=fn.loc(),
+                      detail="owner path: owner == authority key (in place)")
+            run.check("R2", "delegate-path@" + path, n_deleg == 1, "%s: expected exactly one `delegate != authority key => fail` test, found %d" % (path, n_deleg), loc=fn.loc(),
+                      detail="delegate path: delegate == authority key (in place)")
+            cut = {(at.block, t_) for at in sig_ats for t_ in at.true_targets}
+            ok = len(sig_ats) >= 1 and not cfg.success_reach(fn, 0, cut_edges=cut)
+            run.check("R2", "results-propagated@" + path, ok, "%s: a successful path does not pass `authority.is_signer` (false => fail)" % path, loc=fn.loc(), detail="!is_signer => fail on every successful path (in place)")
+            cutk = {(at.block, t_) for at, _ in key_ats for t_ in (at.false_targets if at.cond()[0] == "Ne" else at.true_targets)}
+            ok = bool(key_ats) and not cfg.success_reach(fn, 0, cut_edges=cutk)
+            run.check("R2", "no-bypass@" + path, ok, "%s has a success path that compares neither owner nor delegate with the authority key" % path, loc=fn.loc(), detail="every success path passes a key test (in place)")
+            calls = None
+        for bi, t in (calls or []):
             a0 = pv.operand(t["a"][0], bi, len(fn.blocks[bi]["s"]))
             a1 = pv.operand(t["a"][1], bi, len(fn.blocks[bi]["s"]))
             s0 = show(a0)
@@ -674,15 +722,16 @@ def R2_authority_helpers(run):
                 for (_, b) in info["fail_edges"]:
                     if fn.blocks[b]["t"]["k"] != "unreachable" and not cfg.fail_only(fn, b):
                         all_mp = False
-        run.check("R2", "owner-path@" + path, n_owner == 1, "%s: expected exactly one validate_owner(token_account.owner, authority) call, found %d" % (path, n_owner), loc=fn.loc(),
-                  detail="owner path validates token_account.owner against the authority account")
-        run.check("R2", "delegate-path@" + path, n_deleg == 1, "%s: expected exactly one validate_owner(delegate, authority) call, found %d" % (path, n_deleg), loc=fn.loc(),
-                  detail="delegate path validates the delegate against the authority account")
-        run.check("R2", "results-propagated@" + path, all_mp and calls, "%s: a validate_owner result is dropped or not applied to the authority parameter" % path, loc=fn.loc(),
-                  detail="both results are branched on (`?`)")
-        # no success path avoids both calls
-        ok = not cfg.success_reach(fn, 0, cut_blocks=[bi for bi, _ in calls])
-        run.check("R2", "no-bypass@" + path, ok, "%s has a success path that validates neither owner nor delegate" % path, loc=fn.loc(), detail="every success path crosses a validate_owner call")
+        if calls is not None:
+            run.check("R2", "owner-path@" + path, n_owner == 1, "%s: expected exactly one validate_owner(token_account.owner, authority) call, found %d" % (path, n_owner), loc=fn.loc(),
+                      detail="owner path validates token_account.owner against the authority account")
+            run.check("R2", "delegate-path@" + path, n_deleg == 1, "%s: expected exactly one validate_owner(delegate, authority) call, found %d" % (path, n_deleg), loc=fn.loc(),
+                      detail="delegate path validates the delegate against the authority account")
+            run.check("R2", "results-propagated@" + path, all_mp and calls, "%s: a validate_owner result is dropped or not applied to the authority parameter" % path, loc=fn.loc(),
+                      detail="both results are branched on (`?`)")
+            # no success path avoids both calls
+            ok = not cfg.success_reach(fn, 0, cut_blocks=[bi for bi, _ in calls])
+            run.check("R2", "no-bypass@" + path, ok, "%s has a success path that validates neither owner nor delegate" % path, loc=fn.loc(), detail="every success path crosses a validate_owner call")
         # delegated amount
         amt = False
         for at in A.atoms(fn):
@@ -822,10 +871,9 @@ def R3_pinocchio_labelling(run):
             # constraints on the token account
             have_mint = have_amt = False
             pos_slot = None
-            for b2, t2 in h.calls():
-                if not (callee_path(t2) or "").endswith("verify_constraint"):
-                    continue
-                c = pino.canon(h, pv.operand(t2["a"][0], b2, len(h.blocks[b2]["s"])))
+            from rules.common import verified_conditions
+            for (cterm_, b2, _line) in verified_conditions(h):
+                c = pino.canon(h, cterm_)
                 mp, _ = cfg.must_pass_call(h, b2)
                 if not mp or not cfg.dominates(h, b2, bi):
                     continue
